@@ -14,6 +14,11 @@
 //!  * the recovered serial is not below (RFC 1982) any serial the first life had answered with;
 //!  * one further event gives the same rcode and the same content as on the never-stopped handler.
 //! Stops inside a message are the other families' (the row sequence is the same code).
+//! KINDS part (seed C14-4): the replay context differs from the live one - replay runs BEFORE the
+//! keys are loaded, so it sees no NSEC / RRSIG RRsets where the live zone has them at every name.
+//! Every kind of `vupd::kinds` (incl. CNAME re-target, host -> CNAME and CNAME -> host in one
+//! message) as single event and as ordered pair on the kinds zone, signed with NSEC and with NSEC3:
+//! the whole unsigned content after a restart at every message boundary must be the live content.
 
 use std::time::Duration;
 
@@ -37,6 +42,19 @@ fn zone_signer() -> DnssecSigner {
 
 /// Types every start derives again from the configured keys: RRSIG, NSEC, NSEC3, NSEC3PARAM and the
 /// DNSKEY RRset (its TTL follows the SOA minimum at the time of the start).
+thread_local! {
+    /// the zone of the current history is signed with NSEC3 (salt abcd, 2 iterations) instead of NSEC
+    static NSEC3: std::cell::Cell<bool> = const { std::cell::Cell::new(false) };
+}
+
+fn nx_kind() -> NxProofKind {
+    if NSEC3.with(|c| c.get()) {
+        NxProofKind::Nsec3 { algorithm: Default::default(), salt: vec![0xab, 0xcd].into(), iterations: 2, opt_out: false }
+    } else {
+        NxProofKind::Nsec
+    }
+}
+
 fn derived(t: u16) -> bool {
     matches!(t, 46 | 47 | 48 | 50 | 51)
 }
@@ -65,7 +83,7 @@ fn load_keys(w: &Worker, h: &Handler) -> Result<(), String> {
 impl DLife {
     fn start(w: &Worker, store: &Rc<Store>, zone: Option<&[Rr]>, rows: &[JournalRow]) -> Result<DLife, String> {
         let serial = zone.and_then(|z| z.iter().find(|r| r.rtype == ru::T_SOA)).and_then(|r| ru::soa_serial(&r.rdata)).unwrap_or(0);
-        let mut z = InMemoryZoneHandler::<SimProvider>::empty(vupd::hname(vupd::ORIGIN), ZoneType::Primary, AxfrPolicy::AllowAll, Some(NxProofKind::Nsec));
+        let mut z = InMemoryZoneHandler::<SimProvider>::empty(vupd::hname(vupd::ORIGIN), ZoneType::Primary, AxfrPolicy::AllowAll, Some(nx_kind()));
         for rr in zone.unwrap_or(&[]) {
             z.upsert_mut(vupd::to_record(rr), serial);
         }
@@ -122,8 +140,33 @@ pub fn histories(alpha: &[MsgT], max: usize) -> Vec<Vec<usize>> {
     v
 }
 
-pub fn run(w: &mut Worker, alpha: &[MsgT], zone: &[Rr], hist: &[usize], l: &mut Local) {
-    let case = |k: Option<usize>, cont: Option<usize>| json!({"dnssec_family": true, "history": hist, "history_text": hist.iter().map(|i| alpha[*i].name).collect::<Vec<_>>(), "k": k, "continuation": cont.map(|c| vec![c]).unwrap_or_default()});
+/// The events of the KINDS part of this family: every update-RR kind of `vupd::kinds` (incl. CNAME
+/// re-target, host -> CNAME and CNAME -> host in one message) on the kinds zone.
+pub fn kinds_events(alpha: &[MsgT]) -> Vec<usize> {
+    (FIRST_KIND..alpha.len()).collect()
+}
+
+/// The kinds crossed pairwise in the quick tier (thorough: all of them): everything that touches
+/// a CNAME or removes / adds the data a CNAME competes with, and the SOA replacement.
+pub const QUICK_PAIR_KINDS: [&str; 8] = [
+    "re-target an existing CNAME",
+    "add a CNAME at a new name",
+    "replace a host's A RRset by a CNAME in one message",
+    "replace a CNAME by an A RR in one message",
+    "add CNAME over existing data",
+    "add data over an existing CNAME",
+    "delete an RRset (class ANY)",
+    "replace the apex SOA (higher serial)",
+];
+
+pub fn run(w: &mut Worker, alpha: &[MsgT], zone: &[Rr], zone_name: &str, hist: &[usize], nsec3: bool, with_cont: bool, l: &mut Local) {
+    NSEC3.with(|c| c.set(nsec3));
+    run_inner(w, alpha, zone, zone_name, hist, nsec3, with_cont, l);
+    NSEC3.with(|c| c.set(false));
+}
+
+fn run_inner(w: &mut Worker, alpha: &[MsgT], zone: &[Rr], zone_name: &str, hist: &[usize], nsec3: bool, with_cont: bool, l: &mut Local) {
+    let case = |k: Option<usize>, cont: Option<usize>| json!({"dnssec_family": true, "dnssec_zone": zone_name, "nsec3": nsec3, "with_continuations": with_cont, "history": hist, "history_text": hist.iter().map(|i| alpha[*i].name).collect::<Vec<_>>(), "k": k, "continuation": cont.map(|c| vec![c]).unwrap_or_default()});
     let store1 = w.stores[0].clone();
     let store2 = w.stores[1].clone();
     l.eval();
@@ -159,14 +202,19 @@ pub fn run(w: &mut Worker, alpha: &[MsgT], zone: &[Rr], hist: &[usize], l: &mut 
         };
         let (_, rc, rs, _, _) = &rec.acks[0];
         if *rc != life.acks[j].1 {
+            // which RR types differ goes into the key (an apex SOA difference is the unjournaled
+            // start-up serial bump showing; anything else is another matter)
+            let mut types: Vec<String> = rc.symmetric_difference(&life.acks[j].1).map(|r| vupd::type_name(r.rtype)).collect();
+            types.sort();
+            types.dedup();
             l.violation(
-                "dnssec:boundary-state-wrong:content",
+                &format!("dnssec:boundary-state-wrong:content[{}]", types.join(",")),
                 &format!("restart after event {j} ({k} rows): recovered {:?}, the live zone was {:?}", rc.iter().map(vupd::rr_text).collect::<Vec<_>>(), life.acks[j].1.iter().map(vupd::rr_text).collect::<Vec<_>>()),
                 || case(Some(k), None),
             );
             continue;
         }
-        l.outcome("dnssec:boundary-content-recovered");
+        l.outcome(if nsec3 { "dnssec:nsec3:boundary-content-recovered" } else { "dnssec:boundary-content-recovered" });
         if j > 0 {
             l.nontrivial(vupd::digest(&("dnssec", hist, k)));
         }
@@ -185,7 +233,7 @@ pub fn run(w: &mut Worker, alpha: &[MsgT], zone: &[Rr], hist: &[usize], l: &mut 
         }
         drop(rec);
         // one further event: the restarted handler vs. the never-stopped one in the same state
-        if hist.len() > 2 {
+        if hist.len() > 2 || !with_cont {
             continue;
         }
         for c in &idx {
